@@ -6,6 +6,7 @@ import (
 	"fmt"
 	"os"
 	"path/filepath"
+	"time"
 
 	"github.com/lidofinance/dc4bc/airgapped"
 	"github.com/lidofinance/dc4bc/client/types"
@@ -116,5 +117,76 @@ func c12RejectedThenRestart(c *Ctx, seed uint64) {
 				c.Inconclusive("rejected-then-restart: no %s operation reached the victim", step)
 			}
 		}()
+	}
+}
+
+// c12TwoRoundsInFlight: one machine takes part in two key generations at the same time (two rounds opened
+// before either has finished). It is stopped in the middle and restarted; the operator replays the log of
+// each round, one after the other (`replay_operations_log` takes one round). Both ceremonies must finish
+// with consistent key material, as they do without the restart.
+func c12TwoRoundsInFlight(c *Ctx, seed uint64) {
+	n, t, victim := 2+int(seed%2), 2, 0
+	for _, step := range []string{OpDeals, OpResponses, OpMasterKey} {
+		for _, order := range []string{"A-then-B", "B-then-A"} {
+			wit := map[string]interface{}{"family": "two rounds in flight on one machine, restart + one replay per round", "n": n, "t": t, "victim": victim, "restart_before_first": step, "replay_order": order, "case_seed": seed}
+			w, err := world.NewWorld(world.Options{N: n, T: t, Seed: seed})
+			if err != nil {
+				c.Inconclusive("two rounds in flight: world: %v", err)
+				return
+			}
+			func() {
+				defer w.Close()
+				var ces [2]*Ceremony
+				for k := 0; k < 2; k++ {
+					id, err := w.StartDKG(k%n, t, now().Add(time.Duration(k)*time.Second))
+					if err != nil {
+						c.Inconclusive("two rounds in flight: start: %v", err)
+						return
+					}
+					ces[k] = &Ceremony{W: w, N: n, T: t, Round: id}
+				}
+				fired := false
+				var replayErrs []string
+				w.ColdHook = func(nd *world.Node, op *types.Operation) (*types.Operation, error) {
+					if nd.Idx != victim || string(op.Type) != step || fired || nd.Cold == nil {
+						return nil, nil
+					}
+					fired = true
+					first, second := ces[0].Round, ces[1].Round
+					if order == "B-then-A" {
+						first, second = second, first
+					}
+					rerr, _, _, err := restartMachine(w, nd, first, 7000)
+					if err != nil {
+						return nil, fmt.Errorf("restart: %w", err)
+					}
+					if rerr != nil {
+						replayErrs = append(replayErrs, fmt.Sprintf("%s: %v", trunc(first, 6), rerr))
+					}
+					if err := nd.Cold.ReplayOperationsLog(second); err != nil {
+						replayErrs = append(replayErrs, fmt.Sprintf("%s: %v", trunc(second, 6), err))
+					}
+					return nil, nil
+				}
+				_, q := w.Run(world.RandomPolicy, 12000)
+				c.Eval(1)
+				c.Distinct(fmt.Sprintf("two-rounds-in-flight|%s|%s", step, order))
+				c.Add("two_rounds_in_flight_cases", 1)
+				wit["replay_errors"] = replayErrs
+				if !fired {
+					c.Inconclusive("two rounds in flight: no %s operation reached the victim", step)
+					return
+				}
+				for k, ce := range ces {
+					if !q || !ce.AllIn(StIdle) {
+						c.Violate("C12/ceremony-with-restarts-does-not-finish", fmt.Sprintf("two rounds in flight, machine %d restarted before its first %s and both logs replayed (%s): round %d ends %v; trace tail %v", victim, step, order, k, ce.States(), tailStrings(w.Trace, 3)), wit)
+						return
+					}
+					if !judgeKeyMaterial(c, ce, "C12/two-rounds-in-flight", wit) {
+						return
+					}
+				}
+			}()
+		}
 	}
 }
